@@ -128,7 +128,8 @@ def s_list_sort(I, recv, args, kw):
     I.assume(z3.ForAll([x], z3.Exists([i], z3.And(L.lo <= i, i < L.hi, z3.Select(a, i) == x)) ==
                        z3.Exists([j], z3.And(old.lo <= j, j < old.hi, z3.Select(old.arrs[0], j) == x))))
     I.assume(z3.ForAll([i], z3.Implies(z3.And(L.lo <= i, i < L.hi), z3.Select(a, i) != core.null())))
-    I.frame.env['event_handlers'] = L
+    from pyvc.interp import Frame as _Frame
+    I.frame.env[_Frame.alias.get('event_handlers', 'event_handlers')] = L     # the sorted list replaces the local (whatever its current name)
     return NONE
 
 
